@@ -589,6 +589,65 @@ impl JsonTypedHandler for PAdapter {
 struct TwinRec {
     ok: bool,
     cb: u8,
+    variant: u32,
+}
+
+/// Every `StructError` variant a hand-written `RepeStruct` can return, by index.
+fn struct_error(k: u32, path: String) -> StructError {
+    let bad_json = || serde_json::from_str::<Value>("{").unwrap_err();
+    match k % 7 {
+        0 => StructError::InvalidPath { path },
+        1 => StructError::InvalidSubpath { path },
+        2 => StructError::BodyExpected { path },
+        3 => StructError::BodyUnexpected { path },
+        4 => StructError::Serialize { path, source: bad_json() },
+        5 => StructError::Deserialize { path, source: bad_json() },
+        _ => StructError::Execution { path, message: "scripted failure".into() },
+    }
+}
+
+/// Every `RepeError` variant (and every stable `io::ErrorKind`) a custom handler or middleware can return, by index.
+fn repe_error(k: u32) -> RepeError {
+    use std::io::ErrorKind as K;
+    const KINDS: &[K] = &[
+        K::NotFound, K::PermissionDenied, K::ConnectionRefused, K::ConnectionReset, K::ConnectionAborted, K::NotConnected, K::AddrInUse, K::AddrNotAvailable,
+        K::BrokenPipe, K::AlreadyExists, K::WouldBlock, K::InvalidInput, K::InvalidData, K::TimedOut, K::WriteZero, K::Interrupted, K::Unsupported,
+        K::UnexpectedEof, K::OutOfMemory, K::Other,
+    ];
+    match k % 32 {
+        0 => RepeError::VersionMismatch(9),
+        1 => RepeError::InvalidSpec(0x1234),
+        2 => RepeError::InvalidHeaderLength(7),
+        3 => RepeError::LengthMismatch { expected: 5, got: 3 },
+        4 => RepeError::BufferTooSmall { need: 10, have: 1 },
+        5 => RepeError::ResponseIdMismatch { expected: 1, got: 2 },
+        6 => RepeError::Json(serde_json::from_str::<Value>("{").unwrap_err()),
+        7 => RepeError::Beve(beve::from_slice::<Value>(&[0xff, 0xff, 0xff]).unwrap_err()),
+        8 => RepeError::UnknownEnumValue(77),
+        9 => RepeError::UnexpectedBodyFormat { expected: BodyFormat::Json, got: 9 },
+        10 => RepeError::ServerError { code: ErrorCode::Timeout, message: "upstream".into() },
+        11 => RepeError::MessageTooLarge { size: 10, limit: 5 },
+        j => RepeError::Io(std::io::Error::new(KINDS[(j as usize - 12) % KINDS.len()], "scripted io error")),
+    }
+}
+
+/// What `with_erased_handler` takes: full control of the answer – here an answer with its own query, or an error.
+struct ErasedLeaf {
+    ok: bool,
+    cb: u8,
+    variant: u32,
+}
+impl HandlerErased for ErasedLeaf {
+    fn handle(&self, req: &Message) -> Result<Message, RepeError> {
+        misbehave(self.cb);
+        if self.ok {
+            // sets its OWN response query when the variant is odd (the echo rule must leave it alone)
+            let b = Message::builder().id(req.header.id).body_bytes(req.body.clone()).body_format_code(req.header.body_format);
+            Ok(if self.variant % 2 == 1 { b.query_str("/own/query").query_format_code(1).build() } else { b.build() })
+        } else {
+            Err(repe_error(self.variant))
+        }
+    }
 }
 impl RepeStruct for TwinRec {
     fn repe_handle(&mut self, segments: &[&str], body: Option<Value>) -> Result<Option<Value>, StructError> {
@@ -596,7 +655,7 @@ impl RepeStruct for TwinRec {
         if self.ok {
             Ok(Some(json!({"segs": segments, "body": body})))
         } else {
-            Err(StructError::Execution { path: repe::structs::path_from_segments(segments), message: "scripted failure".into() })
+            Err(struct_error(self.variant, repe::structs::path_from_segments(segments)))
         }
     }
 }
@@ -638,6 +697,7 @@ fn body_format_of(trfmt: u8) -> BodyFormat {
 }
 
 struct TwinCfg<'a> {
+    rawcode: u32,
     kind: &'a str,
     path: &'a str,
     ok: bool,
@@ -648,6 +708,7 @@ struct TwinCfg<'a> {
 
 fn twin_router(c: &TwinCfg, blocking: bool, nmw: usize, order: u8, counts: &[Arc<AtomicU64>], seen: &Seen) -> Option<Router> {
     let (kind, path, ok, code, trfmt, cb) = (c.kind, c.path, c.ok, c.code, c.trfmt, c.cb);
+    let variant = c.rawcode;
     let mut r = Router::new();
     let add_mws = |mut r: Router| {
         for c in counts.iter().take(nmw) {
@@ -697,10 +758,11 @@ fn twin_router(c: &TwinCfg, blocking: bool, nmw: usize, order: u8, counts: &[Arc
             reg.register_function(below, move |p: Option<Value>| { misbehave(cb); if ok { Ok(json!({"p": p})) } else { Err(fail()) } }).ok()?;
             if trfmt % 2 == 0 { r.with_registry(mount, reg) } else { r.register_registry(mount, reg); r }
         }
+        ("erased", false) => r.with_erased_handler(path, Arc::new(ErasedLeaf { ok, cb, variant })),
         ("struct", false) => match trfmt % 3 {
-            0 => r.with_struct(mount, TwinRec { ok, cb }).0,
-            1 => { r.register_struct(mount, TwinRec { ok, cb }); r }
-            _ => r.with_struct_shared::<TwinRec, std::sync::RwLock<TwinRec>>(mount, Arc::new(std::sync::RwLock::new(TwinRec { ok, cb }))),
+            0 => r.with_struct(mount, TwinRec { ok, cb, variant }).0,
+            1 => { r.register_struct(mount, TwinRec { ok, cb, variant }); r }
+            _ => r.with_struct_shared::<TwinRec, std::sync::RwLock<TwinRec>>(mount, Arc::new(std::sync::RwLock::new(TwinRec { ok, cb, variant }))),
         },
         _ => return None,
     };
@@ -713,6 +775,9 @@ fn twin_router(c: &TwinCfg, blocking: bool, nmw: usize, order: u8, counts: &[Arc
 static E2E_DONE: AtomicU64 = AtomicU64::new(0);
 static NO_RESPONSE_SEEN: AtomicU64 = AtomicU64::new(0);
 static GET_E2E_DONE: AtomicU64 = AtomicU64::new(0);
+static THOROUGH: std::sync::atomic::AtomicBool = std::sync::atomic::AtomicBool::new(false);
+/// socket legs with long stalls run concurrently; their verdicts are collected at the end of the run
+static PENDING: Mutex<Vec<std::thread::JoinHandle<Vec<(String, String, Vec<String>)>>>> = Mutex::new(Vec::new());
 static E2E_CAP: AtomicU64 = AtomicU64::new(1500);
 
 fn async_rt() -> &'static tokio::runtime::Runtime {
@@ -721,7 +786,16 @@ fn async_rt() -> &'static tokio::runtime::Runtime {
     RT.get_or_init(|| tokio::runtime::Builder::new_multi_thread().worker_threads(1).max_blocking_threads(1).enable_all().build().expect("tokio runtime"))
 }
 
+/// Servers cannot be stopped once `serve(self)` runs, so every socket leg leaves a listener (and, for the
+/// blocking server, a parked accept thread) behind. Bound their number: past it the legs are skipped, not judged.
+static SERVERS_STARTED: AtomicU64 = AtomicU64::new(0);
+static REFUSED_DONE: AtomicU64 = AtomicU64::new(0);
+const MAX_SERVERS: u64 = 4000;
+
 fn start_server(router: Router, srv: u8, short_read_timeout: bool) -> Result<std::net::SocketAddr, &'static str> {
+    if SERVERS_STARTED.fetch_add(1, Ordering::SeqCst) >= MAX_SERVERS {
+        return Err("cap");
+    }
     let to = |bit: u8| if srv & bit != 0 { Some(std::time::Duration::from_secs(30)) } else { None };
     let rto = if short_read_timeout { Some(std::time::Duration::from_millis(60)) } else { to(2) };
     if srv & 8 == 0 {
@@ -765,7 +839,9 @@ fn tcp_roundtrip(router: Router, frames: &[Vec<u8>], srv: u8, io: u8, salt: u64)
     let addr = start_server(router, srv, io & 8 != 0)?;
     let mut stream = std::net::TcpStream::connect(addr).map_err(|_| "connect")?;
     // watchdog: 12 s normally; once responses have gone missing in this run, 3 s (the tree is broken anyway)
-    let wd = if NO_RESPONSE_SEEN.load(Ordering::SeqCst) >= 2 { 3 } else { 12 };
+    // (s) bit 6: ONE stall longer than any plausible internal timer: 300 / 600 / 1100 ms (2.5 / 5.5 / 11 s in the thorough tier)
+    let long_ms: u64 = if io & 64 != 0 { if THOROUGH.load(Ordering::SeqCst) { [2500, 5500, 11000][(salt % 3) as usize] } else { [300, 600, 1100][(salt % 3) as usize] } } else { 0 };
+    let wd = (if NO_RESPONSE_SEEN.load(Ordering::SeqCst) >= 2 { 3 } else { 12 }) + long_ms / 1000;
     stream.set_read_timeout(Some(std::time::Duration::from_secs(wd))).map_err(|_| "timeout")?;
     stream.set_nodelay(true).ok();
     let all: Vec<u8> = frames.concat();
@@ -785,7 +861,12 @@ fn tcp_roundtrip(router: Router, frames: &[Vec<u8>], srv: u8, io: u8, salt: u64)
     };
     cuts.sort_unstable();
     cuts.dedup();
-    let stall = if io & 8 != 0 { 150 } else if io & 4 != 0 { 25 } else { 0 };
+    let stall = if long_ms > 0 { long_ms } else if io & 8 != 0 { 150 } else if io & 4 != 0 { 25 } else { 0 };
+    let max_stalls = if long_ms > 0 { 1 } else { 4 };
+    if long_ms > 0 && cuts.is_empty() {
+        cuts.push(1 + (salt % 60) as usize % total.max(2).saturating_sub(1).max(1)); // somewhere in the first frame's first 60 bytes
+        cuts.retain(|x| *x > 0 && *x < total);
+    }
     let mut ws = stream.try_clone().map_err(|_| "clone")?;
     let writer = std::thread::spawn(move || {
         let mut at = 0usize;
@@ -796,7 +877,7 @@ fn tcp_roundtrip(router: Router, frames: &[Vec<u8>], srv: u8, io: u8, salt: u64)
             }
             at = *c;
             // stall a bounded number of times (a 1-byte stream must not take minutes)
-            if stall > 0 && stalled < 4 {
+            if stall > 0 && stalled < max_stalls {
                 std::thread::sleep(std::time::Duration::from_millis(stall));
                 stalled += 1;
             }
@@ -804,7 +885,13 @@ fn tcp_roundtrip(router: Router, frames: &[Vec<u8>], srv: u8, io: u8, salt: u64)
         let _ = ws.flush();
     });
     if io & 32 != 0 {
-        let _ = writer.join();
+        // the peer reads nothing for a while: until everything is written, but for at most 300 ms – a client
+        // that NEVER reads while it keeps sending is rightly stuck once the buffers are full (both sides block),
+        // and that would be this harness's deadlock, not the server's
+        let t0 = std::time::Instant::now();
+        while !writer.is_finished() && t0.elapsed() < std::time::Duration::from_millis(300) {
+            std::thread::sleep(std::time::Duration::from_millis(5));
+        }
         std::thread::sleep(std::time::Duration::from_millis(40));
     }
     let mut out = Vec::new();
@@ -823,6 +910,47 @@ fn tcp_roundtrip(router: Router, frames: &[Vec<u8>], srv: u8, io: u8, salt: u64)
     })();
     drop(stream);
     res.map(|_| out)
+}
+
+/// The same frames as binary WebSocket messages to a real `WebSocketServer`, one at a time.
+fn ws_roundtrip(router: Router, frames: &[Vec<u8>]) -> Result<Vec<Message>, &'static str> {
+    use futures_util::{SinkExt, StreamExt};
+    use tokio_tungstenite::tungstenite::Message as WsMsg;
+    let rt = async_rt();
+    let frames = frames.to_vec();
+    rt.block_on(async move {
+        let work = async {
+            if SERVERS_STARTED.fetch_add(1, Ordering::SeqCst) >= MAX_SERVERS {
+                return Err("cap");
+            }
+            let listener = repe::WebSocketServer::listen("127.0.0.1:0").await.map_err(|_| "bind")?;
+            let addr = listener.local_addr().map_err(|_| "addr")?;
+            tokio::spawn(async move {
+                let _ = repe::WebSocketServer::new(router).serve_listener(listener, "/ws").await;
+            });
+            let (mut ws, _) = tokio_tungstenite::connect_async(format!("ws://{}/ws", addr)).await.map_err(|_| "connect")?;
+            let mut out = Vec::new();
+            for f in frames {
+                ws.send(WsMsg::Binary(f.into())).await.map_err(|_| "write")?;
+                loop {
+                    match ws.next().await {
+                        Some(Ok(WsMsg::Binary(b))) => {
+                            out.push(Message::from_slice(&b).map_err(|_| "parse")?);
+                            break;
+                        }
+                        Some(Ok(_)) => continue,
+                        _ => return Err("no_response"),
+                    }
+                }
+            }
+            let _ = ws.close(None).await;
+            Ok(out)
+        };
+        match tokio::time::timeout(std::time::Duration::from_secs(12), work).await {
+            Ok(r) => r,
+            Err(_) => Err("no_response"),
+        }
+    })
 }
 
 /// Final response as the dispatch layer would send it (echo rule + error mapping), canonical text.
@@ -874,7 +1002,8 @@ fn exec_twin(out: &mut Out, line: &str, w: &[&str]) -> (String, bool) {
     let ops = vec![line.to_string()];
     let counts: Vec<Arc<AtomicU64>> = (0..nmw).map(|_| Arc::new(AtomicU64::new(0))).collect();
     let seen: Seen = Arc::new(Mutex::new(vec![]));
-    let cfg = TwinCfg { kind, path: &tpath, ok, code, trfmt, cb };
+    let rawcode: u32 = w[9].parse().unwrap_or(4096);
+    let cfg = TwinCfg { rawcode, kind, path: &tpath, ok, code, trfmt, cb };
     let (Some(plain), Some(raw), Some(wrapped)) =
         (twin_router(&cfg, false, 0, 0, &counts, &seen), twin_router(&cfg, blocking, 0, 0, &counts, &seen), twin_router(&cfg, blocking, nmw, order, &counts, &seen))
     else {
@@ -1076,6 +1205,28 @@ fn exec_twin(out: &mut Out, line: &str, w: &[&str]) -> (String, bool) {
                 let mut frames: Vec<Vec<u8>> = decoy_reqs.iter().map(|d| d.to_vec()).collect();
                 frames.push(req.to_vec());
                 let which = if srv & 8 == 0 { "tcp_server" } else { "async_server" };
+                if io & 64 != 0 && io & 8 == 0 {
+                    // run concurrently; judged when collected
+                    let (router, frames2, r0c, kindc, whichc, opsc) = (wrapped.clone(), frames.clone(), r0.clone(), kind.to_string(), which.to_string(), ops.clone());
+                    let (salt, q2) = (rid ^ idx.parse::<u64>().unwrap_or(0), query.clone());
+                    let h = std::thread::spawn(move || {
+                        let mut fails = vec![];
+                        match tcp_roundtrip(router, &frames2, srv, io, salt) {
+                            Ok(mut all) => {
+                                let got = norm(rid, &q2, Ok(Ok(all.pop().unwrap())));
+                                if got != r0c {
+                                    fails.push((format!("router.twin.{}.{}", kindc, whichc), format!("after a long stall inside the request (io {}) the server answered\n  {}\nbut plain.handle answered\n  {}", io, got, r0c), opsc));
+                                }
+                            }
+                            Err("no_response") => fails.push((format!("router.twin.{}.{}.no_response", kindc, whichc), format!("a request delivered in two pieces with a long stall between them (io {}) was never answered", io), opsc)),
+                            Err(_) => {}
+                        }
+                        fails
+                    });
+                    PENDING.lock().unwrap().push(h);
+                    collect_pending(out, 32);
+                    out.count("twin.e2e.long_stall.started");
+                } else {
                 let t0 = std::time::Instant::now();
                 let rr = tcp_roundtrip(wrapped.clone(), &frames, srv, io, rid ^ idx.parse::<u64>().unwrap_or(0));
                 out.add(&format!("twin.e2e.ms.io{}", io & 63), t0.elapsed().as_millis() as u64);
@@ -1086,7 +1237,8 @@ fn exec_twin(out: &mut Out, line: &str, w: &[&str]) -> (String, bool) {
                         // earlier responses on the connection: none of these handlers sets a query of its own, so each
                         // must carry its own request's id and query (nothing left over from a neighbour)
                         for (d, resp) in decoy_reqs.iter().zip(all.iter()) {
-                            if resp.header.id != d.header.id || resp.query != d.query {
+                            let own_query = kind == "erased" && resp.query == b"/own/query";
+                            if resp.header.id != d.header.id || (resp.query != d.query && !own_query) {
                                 out.oracle_fail(&format!("router.twin.{}.{}.pipelined", kind, which), &format!("request id={} q={} on a shared connection was answered with id={} q={}", d.header.id, hex(&d.query), resp.header.id, hex(&resp.query)), &ops);
                             }
                         }
@@ -1106,12 +1258,54 @@ fn exec_twin(out: &mut Out, line: &str, w: &[&str]) -> (String, bool) {
                         }
                     }
                 }
+                }
+                // (t) the feature-gated WebSocket twin: inline (borrowed) for plain registrars, off-reader (owned
+                // `dispatch` + `stamp_response_query`) for the `_blocking` ones. The peer-carrying context makes the
+                // ctx kinds answer differently by design, so only the context-free kinds are compared.
+                if srv & 1 != 0 && !matches!(kind, "jsonctx" | "typedctx") && decoys <= 3 && io & 64 == 0 {
+                    match ws_roundtrip(wrapped.clone(), &frames) {
+                        Ok(mut all) => {
+                            out.count("twin.e2e.websocket.ok");
+                            let got = norm(rid, &query, Ok(Ok(all.pop().unwrap())));
+                            if got != r0 {
+                                out.oracle_fail(&format!("router.twin.{}.websocket_server", kind), &format!("the WebSocket server ({} path) answered\n  {}\nbut plain.handle answered\n  {}", if blocking { "off-reader" } else { "inline" }, got, r0), &ops);
+                            }
+                        }
+                        Err(e) => out.count(&format!("twin.e2e.websocket.io_error.{}", e)),
+                    }
+                }
+            }
+        }
+    }
+    // (u) our clause on somebody else's path: an envelope that `route()` refuses (version, query format, not
+    // UTF-8, unknown path – the codes are C03's) must still be refused THE SAME WAY by the blocking and the
+    // async server, with the request's id and query
+    if (io & 128 != 0 || idx.parse::<u64>().map(|i| i % 8 == 1).unwrap_or(false)) && notify != 1 && !panics {
+        let refused = version != 1 || qfmt != 1 || std::str::from_utf8(&query).map(|p| wrapped.get(p).is_none()).unwrap_or(true);
+        if refused && REFUSED_DONE.fetch_add(1, Ordering::SeqCst) < 300 {
+            let f = vec![req.to_vec()];
+            let a = tcp_roundtrip(wrapped.clone(), &f, srv & !8, 0, 0);
+            let b = tcp_roundtrip(wrapped.clone(), &f, srv | 8, 0, 0);
+            match (a, b) {
+                (Ok(mut a), Ok(mut b)) => {
+                    out.count("twin.e2e.refused.ok");
+                    let (a, b) = (a.pop().unwrap(), b.pop().unwrap());
+                    let (na, nb) = (norm(rid, &[], Ok(Ok(a.clone()))), norm(rid, &[], Ok(Ok(b))));
+                    if na != nb {
+                        out.oracle_fail(&format!("router.twin.{}.servers_differ", kind), &format!("a refused request was answered\n  {}\nby the blocking server and\n  {}\nby the async server", na, nb), &ops);
+                    }
+                    if a.header.id != rid || a.query != query || a.header.ec == 0 {
+                        out.oracle_fail(&format!("router.twin.{}.refusal_shape", kind), &format!("a request no route accepts was answered id={} ec={} q={} (request id={} q={})", a.header.id, a.header.ec, hex(&a.query), rid, hex(&query)), &ops);
+                    }
+                }
+                (Err("no_response"), _) | (_, Err("no_response")) => out.oracle_fail(&format!("router.twin.{}.refused.no_response", kind), "a refused non-notify request got no answer from one of the servers", &ops),
+                _ => out.count("twin.e2e.refused.io_error"),
             }
         }
     }
     // `with_handler` (JsonTypedAdapter) must gate body formats like `with_typed` does for the same input type
     if kind == "adapter" {
-        if let Some(tr) = twin_router(&TwinCfg { kind: "typed", path: &tpath, ok, code, trfmt, cb }, false, 0, 0, &counts, &seen) {
+        if let Some(tr) = twin_router(&TwinCfg { rawcode, kind: "typed", path: &tpath, ok, code, trfmt, cb }, false, 0, 0, &counts, &seen) {
             if let Some(th) = tr.get(&tpath) {
                 let is_gate_rej = |r: &Result<Result<Message, RepeError>, String>| matches!(r, Ok(Ok(m)) if m.header.ec == 4 && m.body.starts_with(b"Expected"));
                 let a = catch(|| hp.handle(&req));
@@ -1807,6 +2001,73 @@ impl Gen {
         }
     }
 
+    // ---- (q) rich state: many routes and mounts, registered in no particular order, BEFORE the rare event
+    // (a middleware registration rebuilding every slot, a clone, a re-registration); then every entry is probed
+    fn rich_scenario(&mut self) {
+        self.push("reset", "");
+        let n_routes = self.rng.range(12, 40);
+        let mut names: Vec<String> = (0..n_routes).map(|i| format!("/{}{}", ["zeta", "alpha", "Mid", "k", "é", "omega"][self.rng.below(6) as usize], i * 7 % 31)).collect();
+        self.rng.shuffle(&mut names);
+        let mut ops: Vec<(u8, String)> = names.iter().map(|n| (0u8, n.clone())).collect();
+        // overlapping mounts: "first registered that matches" is decided among /m, /m/a, /m/a/b in shuffled order
+        for p in ["/m", "/m/a", "/m/a/b", "", "/zeta3"] {
+            ops.push((1, p.to_string()));
+            ops.push((2, p.to_string()));
+        }
+        self.rng.shuffle(&mut ops);
+        for (k, p) in &ops {
+            let id = self.fresh();
+            self.push(["route", "reg", "struct"][*k as usize], &format!("{} {}", shex(p), id));
+        }
+        for round in 0..self.rng.range(1, 3) {
+            match self.rng.below(3) {
+                0 => self.push("clone", ""),
+                1 => {
+                    let p = self.rng.pick(&names).clone();
+                    let id = self.fresh();
+                    self.push("route", &format!("{} {}", shex(&p), id));
+                }
+                _ => {}
+            }
+            let id = 8 * (100 + self.fresh()) + self.rng.below(5);
+            self.push("mw", &id.to_string());
+            if round == 0 || self.rng.chance(1, 2) {
+                for n in names.clone() {
+                    self.push("get", &shex(&n));
+                }
+                for p in ["/m", "/m/a", "/m/a/b", "/m/a/b/c", "/m/x", "/mx", "/zeta3/q", "/nothing/here"] {
+                    self.push("get", &shex(p));
+                }
+            }
+        }
+    }
+
+    // ---- (r) positive siblings of "too deep / too long": registry functions and exact routes that EXIST at depth
+    // 17..64 and at 4 KB, found and handed the full pointer
+    fn deep_positive(&mut self) {
+        let depth = *self.rng.pick(&[16u64, 17, 18, 20, 21, 40, 64]);
+        let mut tail = String::new();
+        for i in 0..depth {
+            tail.push('/');
+            tail.push_str(["a", "bb", "k9", "é", "seg"][((i + depth) % 5) as usize]);
+        }
+        let pre = *self.rng.pick(&["/api", "", "/a/b", "/é"]);
+        self.push("match", &format!("reg {} {}", shex(pre), shex(&format!("{}{}", pre, tail))));
+        // an exact route at that deep path next to mounts that cover it
+        self.push("reset", "");
+        let (i1, i2, i3) = (self.fresh(), self.fresh(), self.fresh());
+        let full = format!("/deep{}", tail);
+        self.push("reg", &format!("{} {}", shex("/deep"), i1));
+        self.push("route", &format!("{} {}", shex(&full), i2));
+        self.push("struct", &format!("{} {}", shex(""), i3));
+        self.push("get", &shex(&full));
+        self.push("get", &shex(&format!("{}/x", full)));
+        let long = format!("/{}", "L".repeat(4000));
+        let i4 = self.fresh();
+        self.push("route", &format!("{} {}", shex(&long), i4));
+        self.push("get", &shex(&long));
+    }
+
     // ---- (ii) prefix / path pairs
     fn prefix_pairs(&mut self) {
         const PRE: &[&str] = &["", "/", "/api", "api", "/api/", "/a/b", "//", "/é", "/api//", "/a~1b", "a/b", "/a", "/x/y/z", "///"];
@@ -1990,7 +2251,8 @@ impl Gen {
         let blocking = can_block && ov.blocking.unwrap_or_else(|| self.rng.chance(1, 2));
         let nmw = ov.nmw.unwrap_or_else(|| *self.rng.pick(&[0u64, 0, 1, 2, 3, 3, 7, 8, 9, 16, 17, 33]));
         let ok = self.rng.chance(3, 4);
-        let code = *self.rng.pick(&[4096u32, 5, 9, 6, 4, 0, 1, 8, 7]);
+        let code = if matches!(kind, "erased" | "struct") { self.rng.below(64) as u32 } else { *self.rng.pick(&[4096u32, 5, 9, 6, 4, 0, 1, 8, 7, 2, 3]) };
+        let ok = if kind == "erased" { self.rng.chance(1, 3) } else { ok };
         let order = ov.order.unwrap_or_else(|| self.rng.below(2));
         let voff = self.rng.below(9);
         // where the route lives: the usual short path, non-ASCII, long, deep
@@ -2035,7 +2297,7 @@ impl Gen {
             let mode = *self.rng.pick(&[0u64, 0, 1, 2, 2, 3]);
             let stall = match self.rng.below(12) { 0 => 4, 1 => 8, _ => 0 };
             let rd = if self.rng.chance(1, 6) { 16 } else { 0 } | if self.rng.chance(1, 6) { 32 } else { 0 };
-            mode | stall | rd | if self.rng.chance(1, 10) { 128 } else { 0 }
+            mode | stall | rd | if self.rng.chance(1, 10) { 128 } else { 0 } | if self.rng.chance(1, 14) { 64 | 128 } else { 0 }
         });
         // (h) frames right below / at / above the 8 KiB BufReader/BufWriter capacity (and twice that)
         if self.rng.chance(1, 12) && matches!(bfmt, 2 | 3) && matches!(kind, "json" | "jsonctx" | "struct" | "registry") {
@@ -2105,7 +2367,7 @@ impl Gen {
     }
 }
 
-const KINDS: &[&str] = &["json", "jsonctx", "typed", "typedctx", "adapter", "slice", "sliceref", "registry", "struct"];
+const KINDS: &[&str] = &["json", "jsonctx", "typed", "typedctx", "adapter", "slice", "sliceref", "registry", "struct", "erased"];
 const BFMTS: &[u16] = &[0, 1, 1, 1, 2, 2, 3, 3, 4, 255, 4096, 65535];
 
 /// Does each uninterpreted decoder accept these bytes (for the kind's target type)?  The model
@@ -2150,6 +2412,12 @@ fn generate(args: &Args) -> Vec<String> {
     for _ in 0..n_scen {
         g.scenario();
     }
+    for _ in 0..(if thorough { 300 } else { 12 }) {
+        g.rich_scenario();
+    }
+    for _ in 0..(if thorough { 400 } else { 20 }) {
+        g.deep_positive();
+    }
     for _ in 0..n_pairs {
         g.prefix_pairs();
     }
@@ -2185,6 +2453,20 @@ fn generate(args: &Args) -> Vec<String> {
                     &format!("json 0 1 2 {} {} ok 4096 0 0 1 {} 7 0 1 0 0 0 0 {} {} 1 128", hex(&body), hints_for("json", &body), shex(TWIN_PATH), shex(TWIN_PATH), srv),
                 );
             }
+        }
+    }
+    // (p) every error a callback can hand in, once through each server (socket leg forced): all RepeError variants and
+    // io::ErrorKinds from a custom handler, all StructError variants from a struct, all ErrorCodes from a closure
+    for srv in [0u64, 8, 1] {
+        let body = b"{\"a\":1}".to_vec();
+        for v in 0..32u32 {
+            g.push("twin", &format!("erased 0 {} 2 {} {} err {} 0 0 1 {} {} 0 1 0 0 0 0 {} {} 1 128", v % 3, hex(&body), hints_for("erased", &body), v, shex(TWIN_PATH), 1000 + v, shex(TWIN_PATH), srv));
+        }
+        for v in 0..7u32 {
+            g.push("twin", &format!("struct 0 1 2 {} {} err {} 0 0 1 {} {} 0 1 0 0 {} 0 {} {} 0 128", hex(&body), hints_for("struct", &body), v, shex(TWIN_PATH), 2000 + v, v, shex(TWIN_PATH), srv));
+        }
+        for c in [0u32, 1, 2, 3, 4, 5, 6, 7, 8, 9, 4096] {
+            g.push("twin", &format!("json 0 2 2 {} {} err {} 1 0 1 {} {} 0 1 0 0 0 0 {} {} 2 128", hex(&body), hints_for("json", &body), c, shex(TWIN_PATH), 3000 + c, shex(TWIN_PATH), srv));
         }
     }
     // (k) two knobs at once: every pair of knobs at both extremes, the socket leg forced
@@ -2226,17 +2508,133 @@ fn generate(args: &Args) -> Vec<String> {
     g.lines
 }
 
+// ------------------------------------------------------------------------------------------
+// (n) which public entry points of the anchored files this harness drives
+// ------------------------------------------------------------------------------------------
+/// (file, names driven by some op of this family)
+const DRIVEN: &[(&str, &[&str])] = &[
+    ("src/server.rs", &[
+        "run", "ctx", "peer", // Next
+        "new", "json", "beve", "utf8", "raw_binary", // TypedResponse (and Router::new / Server::new)
+        "other", "poisoned", // LockError (poisoned: through the std locks)
+        "with_json", "with", "with_erased_handler", "with_middleware", "register_middleware", "with_typed", "with_typed_slice", "with_typed_slice_ref",
+        "with_json_ctx", "with_typed_ctx", "with_json_blocking", "with_json_ctx_blocking", "with_typed_blocking", "with_typed_ctx_blocking", "with_handler",
+        "with_struct_shared", "register_struct_shared", "with_struct", "register_struct", "with_registry", "register_registry", "get",
+        "read_timeout", "write_timeout", "tcp_nodelay", "listen", "serve",
+    ]),
+    ("src/async_server.rs", &["new", "read_timeout", "write_timeout", "listen", "serve"]),
+    ("src/json_pointer.rs", &["parse", "evaluate"]),
+    ("src/server_request.rs", &["route", "route_request_view", "dispatch_view", "dispatch"]), // pub(crate): through the TCP servers; `dispatch` through the WebSocket off-reader path
+    ("repe-derive/src/lib.rs", &["derive_repe_struct"]),
+    ("src/structs.rs", &["code", "path_from_segments"]),
+];
+/// (file, name, why not)
+const NOT_DRIVEN: &[(&str, &str, &str)] = &[
+    ("src/server.rs", "stop", "no handle is left once `serve(self)` owns the server"),
+    ("src/structs.rs", "join_path", "builds error-message text only"),
+    ("src/structs.rs", "prepend_path", "builds error-message text only"),
+];
+
+fn source_entry_points(rel: &str) -> Vec<String> {
+    let repo = std::env::var("VERIF_REPO").unwrap_or_else(|_| "/repo".into());
+    let text = std::fs::read_to_string(std::path::Path::new(&repo).join(rel)).unwrap_or_default();
+    let text = text.split("#[cfg(test)]").next().unwrap_or("").split("#[cfg(all(test").next().unwrap_or("").to_string();
+    let mut names: Vec<String> = Vec::new();
+    for line in text.lines() {
+        let t = line.trim_start();
+        for pre in ["pub async fn ", "pub fn ", "pub(crate) fn ", "pub(crate) async fn "] {
+            if let Some(rest) = t.strip_prefix(pre) {
+                let name: String = rest.chars().take_while(|c| c.is_alphanumeric() || *c == '_').collect();
+                if !name.is_empty() && !names.contains(&name) {
+                    names.push(name);
+                }
+            }
+        }
+    }
+    names
+}
+
+/// Anything public in the anchored files that is neither driven nor excused goes to stats.json (`not_driven`) and stderr.
+fn entry_point_audit(out: &mut Out) {
+    let mut missing = Vec::new();
+    let mut total = 0;
+    for (file, driven) in DRIVEN {
+        for name in source_entry_points(file) {
+            total += 1;
+            let excused = NOT_DRIVEN.iter().any(|(f, n, _)| f == file && *n == name);
+            if !driven.contains(&name.as_str()) && !excused {
+                eprintln!("fam_router: public entry point {}::{} is not driven by this harness", file, name);
+                out.count(&format!("NOT_DRIVEN.{}.{}", file, name));
+                missing.push(format!("{}::{}", file, name));
+            }
+        }
+    }
+    out.extra.insert("entry_points_seen".into(), json!(total));
+    out.extra.insert("not_driven".into(), json!(missing));
+    out.extra.insert("not_driven_because".into(), json!(NOT_DRIVEN.iter().map(|(f, n, w)| format!("{}::{} – {}", f, n, w)).collect::<Vec<_>>()));
+}
+
+fn collect_pending(out: &mut Out, keep: usize) {
+    loop {
+        let h = {
+            let mut p = PENDING.lock().unwrap();
+            if p.len() <= keep { break; }
+            p.remove(0)
+        };
+        if let Ok(fails) = h.join() {
+            out.count("twin.e2e.long_stall.done");
+            for (sig, detail, ops) in fails {
+                out.oracle_fail(&sig, &detail, &ops);
+            }
+        }
+    }
+}
+
+/// (o) every op runs under a watchdog: an op that does not finish is a call into the code under test that
+/// never returned. The oracle line is appended, the run is abandoned (an in-process call cannot be cancelled).
+fn spawn_watchdog(dir: std::path::PathBuf, limit: std::time::Duration) -> Arc<Mutex<(std::time::Instant, String)>> {
+    let cur = Arc::new(Mutex::new((std::time::Instant::now(), String::new())));
+    let c2 = cur.clone();
+    std::thread::spawn(move || loop {
+        std::thread::sleep(std::time::Duration::from_millis(500));
+        let (t0, op) = c2.lock().unwrap().clone();
+        if !op.is_empty() && t0.elapsed() > limit {
+            use std::io::Write;
+            let v = json!({"sig": "router.call_never_returned", "detail": format!("this op did not finish within {:?}: a call into the router / handler / server never returned", limit), "ops": [op]});
+            if let Ok(mut f) = std::fs::OpenOptions::new().append(true).create(true).open(dir.join("oracle.txt")) {
+                let _ = writeln!(f, "{}", v);
+            }
+            eprintln!("fam_router: watchdog expired, abandoning the run");
+            std::process::exit(3);
+        }
+    });
+    cur
+}
+
 fn main() {
+    if std::env::args().any(|a| a == "--check-entry-points") {
+        let dir = std::env::temp_dir().join(format!("fam_router_ep_{}", std::process::id()));
+        std::fs::create_dir_all(&dir).ok();
+        let mut out = Out::new(&dir);
+        entry_point_audit(&mut out);
+        println!("{}", serde_json::to_string_pretty(&out.extra).unwrap());
+        let bad = out.extra.get("not_driven").and_then(|v| v.as_array()).map(|a| !a.is_empty()).unwrap_or(false);
+        let _ = std::fs::remove_dir_all(&dir);
+        std::process::exit(if bad { 1 } else { 0 });
+    }
     let args = Args::parse();
     quiet_panics();
     let mut out = Out::new(&args.out);
+    entry_point_audit(&mut out);
+    let watch = spawn_watchdog(args.out.clone(), std::time::Duration::from_secs(if args.thorough() { 120 } else { 60 }));
     out.rule = "(i) random registration orders of routes (all with_* registrars), registry mounts, struct mounts and tracing middleware over small overlapping path pools, a `get` after every registration; non-trivial = some middleware or mount present. (ii) prefix/path pairs built from the prefix (itself, normalised, minus a char, plus tails with and without '/'); (iii) struct mounts with relative paths of 0..40 segments biased to 15/16/17/18/40, empty segments, well-formed ~0/~1 escapes; (v) a #[derive(RepeStruct)] struct (plain / readonly / nested x2 fields, 3 methods) mounted at several roots via register_/with_struct_shared: reads, writes (JSON/UTF-8/BEVE/garbage/bad format), calls, invalid paths and subpaths, deep paths; (vi) a hand-written spy RepeStruct behind 1-3 levels of #[repe(nested)] fields of derived structs, remaining paths with empty tokens at every position, against the RFC 6901 tokens and against the same spy mounted directly at the longer prefix; (iv) every handler kind x body-format codes {0..4,255,4096,65535} x valid/near-valid/arbitrary bodies through handle/handle_with_ctx/handle_view of the plain, blocking and middleware-wrapped handler; non-trivial = reaches the decoder or a known format code".into();
     let lines = match args.replay_ops() {
         Some(l) => l,
         None => generate(&args),
     };
     if args.thorough() {
-        E2E_CAP.store(6000, Ordering::SeqCst);
+        E2E_CAP.store(2100, Ordering::SeqCst);
+        THOROUGH.store(true, Ordering::SeqCst);
     }
     let mut sc = Scen::new();
     let mut ds = DState::new();
@@ -2244,8 +2642,12 @@ fn main() {
         if out.oracle_failures >= 12 {
             break; // a broken tree has shown itself: stop early, the replays are written
         }
+        *watch.lock().unwrap() = (std::time::Instant::now(), line.clone());
         exec_line(&mut out, &mut sc, &mut ds, line);
     }
+    *watch.lock().unwrap() = (std::time::Instant::now(), "collecting the concurrent stalled socket legs".to_string());
+    collect_pending(&mut out, 0);
+    *watch.lock().unwrap() = (std::time::Instant::now(), String::new());
     out.extra.insert("ops".into(), json!(lines.len()));
     out.finish();
 }
